@@ -38,7 +38,7 @@ CONSTANTS
 E(f, b, s, sy, an, no) == [fam |-> f, base |-> b, skip |-> s, sym |-> sy, anti |-> an, normal |-> no]
 
 \* the 21 advertised entries (descriptions of native_random_number_generators / Database.generate_draws)
-Cat ==
+Advertised ==
     "UNIFORM"              :> E("iid",    0,  0, FALSE, FALSE, FALSE) @@
     "UNIFORM_ANTI"         :> E("iid",    0,  0, FALSE, TRUE,  FALSE) @@
     "UNIFORM_HALTON2"      :> E("halton", 2, 10, FALSE, FALSE, FALSE) @@
@@ -60,6 +60,9 @@ Cat ==
     "NORMAL_HALTON5"       :> E("halton", 5, 10, FALSE, FALSE, TRUE)  @@
     "NORMAL_MLHS"          :> E("mlhs",   0,  0, FALSE, FALSE, TRUE)  @@
     "NORMAL_MLHS_ANTI"     :> E("mlhs",   0,  0, FALSE, TRUE,  TRUE)
+
+\* (an operator of its own so that a control run can substitute a mutated catalogue)
+Cat == Advertised
 
 Names == DOMAIN Cat
 HaltonNames == {nm \in Names : Cat[nm].fam = "halton"}
